@@ -2,6 +2,8 @@
 
 package mailbox
 
+import "io"
+
 // VH_C02_Step: inductive step of "the reader only ever returns the next honest
 // record". The initiator writes two records r0, r1 (symbolic lengths), the
 // responder writes one in the other direction. The reader is in lock-step and
@@ -147,5 +149,72 @@ func VH_C02_AfterError() {
 		}
 		vAssert(vBytesEq(m, recs[expect]), "a record was returned that is not the next honest record: after a read error the reader was handed later or foreign data, so what it has received is no longer a prefix of what the peer wrote")
 		expect++
+	}
+}
+
+// vScriptReader hands out a script of chunks; a nil chunk is a read deadline
+// that expires (0, timeout), the end of the script is io.EOF.
+type vScriptReader struct {
+	chunks [][]byte
+	i      int
+}
+
+func (r *vScriptReader) Read(p []byte) (int, error) {
+	for r.i < len(r.chunks) && r.chunks[r.i] != nil && len(r.chunks[r.i]) == 0 {
+		r.i++
+	}
+	if r.i >= len(r.chunks) {
+		return 0, io.EOF
+	}
+	if r.chunks[r.i] == nil {
+		r.i++
+		return 0, vErrTimeout
+	}
+	n := copy(p, r.chunks[r.i])
+	r.chunks[r.i] = r.chunks[r.i][n:]
+	return n, nil
+}
+
+// VH_C02_ReadTimeout: a read deadline expires in the middle of a record (after
+// `cut` of its bytes: inside the header or inside the body), the reader reads
+// again - as any net.Conn user may after a timeout - and the rest of the
+// record arrives, intact or with one byte altered by the relay; another
+// record follows. Whatever the reader does with the interrupted record
+// (give up for good, or resume), every read that succeeds returns the next
+// record the peer wrote: nothing altered is accepted and no record is cut out
+// of the stream.
+func VH_C02_ReadTimeout() {
+	ini, rsp := vMachines()
+	recs := [3][]byte{vBytes("r0", 2), vBytes("r1", 3), vBytes("r2", 2)}
+	var wire [3][]byte
+	for i := range recs {
+		w := &vPartialWriter{log: make([]byte, 0, 64)}
+		vAssert(ini.WriteMessage(recs[i]) == nil, "WriteMessage failed")
+		_, err := ini.Flush(w)
+		vAssert(err == nil, "Flush failed")
+		wire[i] = w.log
+	}
+	cut := vIntRange("cut", 1, len(wire[1])-1)
+	rest := make([]byte, len(wire[1])-cut)
+	copy(rest, wire[1][cut:])
+	if vBool("rest_altered") {
+		at := 0
+		if vBool("alter_last_byte") {
+			at = len(rest) - 1
+		}
+		rest[at] ^= 1
+	}
+	src := &vScriptReader{chunks: [][]byte{wire[0], wire[1][:cut], nil, rest, wire[2]}}
+	var got [][]byte
+	for tries := 0; tries < 8; tries++ {
+		m, err := rsp.ReadMessage(src)
+		if err == nil {
+			got = append(got, m)
+		}
+	}
+	vReach("read-timeout")
+	vAssert(len(got) >= 1, "the record before the interrupted one was not delivered")
+	for i, m := range got {
+		vAssert(i < len(recs) && vBytesEq(m, recs[i]), "a read after a deadline error returned something else than the next record the peer wrote (a record was cut out of the stream, or altered data was accepted)")
 	}
 }
